@@ -74,7 +74,7 @@ def _record_layout(ci) -> Optional[List[Tuple[str, object]]]:
         return None
     init = ci.methods.get("__init__")
     if init is None:
-        if not any(ast.unparse(d).split("(")[0].split(".")[-1] == "dataclass" for d in ci.node.decorator_list):
+        if not any(ast.unparse(d).split("(")[0].split(".")[-1] == "dataclass" for d in ci.node.decorator_list) and not any(b.split(".")[-1] == "NamedTuple" for b in ci.base_names):
             return None
         out: List[Tuple[str, object]] = []
         for st in ci.node.body:
@@ -124,14 +124,15 @@ def _local_record_class(model: Model, fi: FuncInfo, name: str):
 
     if name in fi.params or isinstance(fi.node, ast.Lambda):
         return None
-    defs = [n for n in ast.walk(fi.node) if isinstance(n, ast.Name) and n.id == name and isinstance(n.ctx, (ast.Store, ast.Del))]
+    roots = _CUR_BODY if _CUR_BODY is not None else [fi.node]  # the statements as they stand now (helpers already in place)
+    defs = [n for r_ in roots for n in ast.walk(r_) if isinstance(n, ast.Name) and n.id == name and isinstance(n.ctx, (ast.Store, ast.Del))]
     if len(defs) != 1:
         return None
-    asg = [n for n in ast.walk(fi.node) if isinstance(n, ast.Assign) and len(n.targets) == 1 and n.targets[0] is defs[0]]
+    asg = [n for r_ in roots for n in ast.walk(r_) if isinstance(n, ast.Assign) and len(n.targets) == 1 and n.targets[0] is defs[0]]
     if len(asg) != 1 or not isinstance(asg[0].value, ast.Call) or not isinstance(asg[0].value.func, ast.Name):
         return None
     tgt = model.lookup_target(model.resolve_dotted(fi.module, fi, asg[0].value.func.id))
-    if not isinstance(tgt, ClassInfo) or not tgt.name.startswith("_") or tgt.name.startswith("__") or model.is_visitor(tgt) or tgt.base_names:
+    if not isinstance(tgt, ClassInfo) or not tgt.name.startswith("_") or tgt.name.startswith("__") or model.is_visitor(tgt) or not all(b.split(".")[-1] in ("NamedTuple", "object") for b in tgt.base_names):
         return None
     if _record_field_names(tgt) is None:
         return None
@@ -178,11 +179,24 @@ def _expand_record_properties(body: List[ast.stmt], classes: Dict[str, object]) 
 def _split_records(model: Model, fi: FuncInfo, body: List[ast.stmt]) -> Tuple[List[ast.stmt], bool]:
     """x = _Rec(a, b) where x is a local that is only ever read or written field by field (x.f): one local per field.
     The object cannot be observed as a whole, so its fields are variables of the function."""
+    global _CUR_BODY
     changed = False
     cands: Dict[str, Tuple[ast.Assign, List[str]]] = {}
     layouts: Dict[str, List[Tuple[str, object]]] = {}
     classes: Dict[str, object] = {}
-    for st in body:
+    _CUR_BODY = body
+    try:
+        for st in body:
+            for n in ast.walk(st):
+                if isinstance(n, ast.Assign) and len(n.targets) == 1 and isinstance(n.targets[0], ast.Name) and isinstance(n.value, ast.Call) and isinstance(n.value.func, ast.Name):
+                    ci = _local_record_class(model, fi, n.targets[0].id)
+                    if ci is not None:
+                        cands[n.targets[0].id] = (n, _record_field_names(ci))  # type: ignore
+                        layouts[n.targets[0].id] = _record_layout(ci)
+                        classes[n.targets[0].id] = ci
+    finally:
+        _CUR_BODY = None
+    for st in []:
         for n in ast.walk(st):
             if isinstance(n, ast.Assign) and len(n.targets) == 1 and isinstance(n.targets[0], ast.Name) and isinstance(n.value, ast.Call) and isinstance(n.value.func, ast.Name):
                 ci = _local_record_class(model, fi, n.targets[0].id)
@@ -388,6 +402,7 @@ class _Sub(ast.NodeTransformer):
 
 _KEEP: frozenset = frozenset()
 _HOIST_TESTS = False
+_CUR_BODY: Optional[List[ast.stmt]] = None
 
 
 def unrolled(model: Model, fi: FuncInfo, keep: frozenset = frozenset(), hoist_tests: bool = False) -> FuncInfo:
@@ -451,8 +466,10 @@ class _TableCalls(ast.NodeTransformer):
 def _inline_returned_helpers(model: Model, fi: FuncInfo, body: List[ast.stmt]) -> Tuple[List[ast.stmt], bool]:
     """every `return self._h(..)` statement of the body - at any nesting depth, it is a tail position wherever it
     stands - replaced by the statements of the private, single-use helper _h"""
+    global _CUR_BODY
     all_names = {x.id for st in body for x in ast.walk(st) if isinstance(x, ast.Name)} | set(fi.pos_params)
     changed = False
+    _CUR_BODY = body
 
     def hoist(stmts: List[ast.stmt]) -> List[ast.stmt]:
         """a call of an inlinable private helper that is the first thing a statement evaluates (everything evaluated
@@ -474,8 +491,9 @@ def _inline_returned_helpers(model: Model, fi: FuncInfo, body: List[ast.stmt]) -
                 if e is None:
                     break
                 first = next(_eval_order(e), None)
-                if not isinstance(first, ast.Call) or (first is e and not isinstance(cur, ast.If)):
-                    break
+                plain_target = isinstance(cur, ast.Assign) and len(cur.targets) == 1 and (isinstance(cur.targets[0], ast.Name) or (isinstance(cur.targets[0], ast.Tuple) and all(isinstance(x_, ast.Name) for x_ in cur.targets[0].elts)))
+                if not isinstance(first, ast.Call) or (first is e and not isinstance(cur, ast.If) and not (isinstance(cur, ast.Assign) and not plain_target)):
+                    break  # (obj.attr = h(..) is hoisted too: the right-hand side is evaluated before the target)
                 got = _resolve_helper(model, fi, first)
                 if got is None or not got[0].is_private or got[0] is fi or got[0].name in _KEEP or isinstance(got[0].node, ast.Lambda):
                     break
@@ -574,7 +592,10 @@ def _inline_returned_helpers(model: Model, fi: FuncInfo, body: List[ast.stmt]) -
             out.append(st)
         return out
 
-    new = block(body)
+    try:
+        new = block(body)
+    finally:
+        _CUR_BODY = None
     return new, changed
 
 
